@@ -139,3 +139,60 @@ def source_driven_mm1(seed, params):
     src = Source.poisson(rate=rate, target=srv, stop_after=stop, name="src")
     sim = make_sim([srv, sink], p.end(), sources=[src])
     return Scenario(sim, {"srv": srv, "sink": sink, "src": src}, "servers", True, 60)
+
+
+# ----------------------------------------------------------------------
+# counts, zero durations, composition
+
+
+@scenario("servers.zero_service_time_chain", "servers")
+def zero_service_time_chain(seed, params):
+    """A chain of p.count servers some of which take ZERO service time (everything they do happens at one
+    instant: a finite burst must still drain in a bounded number of deliveries), concurrency from counts."""
+    p = P(params, seed)
+    sink = Recorder("sink")
+    n = p.count(0, 3)
+    nxt = sink
+    servers = []
+    for i in range(n):
+        st = ConstantLatency(0.0) if i % 2 == 0 else ConstantLatency(p.lat(i))
+        s = Server(f"s{i}", concurrency=p.count(1 + i % 2, 2), service_time=st, queue_capacity=p.count(2, 8) if i % 3 else None, downstream=nxt)
+        servers.append(s)
+        nxt = s
+    pool = ThreadPool("pool", num_workers=p.count(1, 2), default_processing_time=0.0)
+    azero = AsyncServer("azero", max_connections=p.count(2, 3), cpu_work_distribution=ConstantLatency(0.0))
+    arr = p.arrivals(8)
+    sim = make_sim([*servers, sink, pool, azero], p.end())
+    _burst(sim, nxt, arr)
+    _burst(sim, pool, arr[:5], "Task")
+    _burst(sim, azero, arr[:5])
+    return Scenario(sim, {"head": nxt, "sink": sink, "pool": pool, "azero": azero}, "servers", True, len(arr) + 10)
+
+
+@scenario("servers.behind_front_stage", "servers")
+def behind_front_stage(seed, params):
+    """Server / ThreadPool / AsyncServer (generator I/O) behind each delaying front stage."""
+    from hsverif.scenarios._kit import FRONT_STAGES, front_stage
+
+    p = P(params, seed)
+    v = int(p.x("v", seed * 7 + 3))
+    sink = Recorder("sink")
+    box = {}
+
+    def io(event):
+        yield p.lat(2)
+        return [Event(time=box["a"].now, event_type="Response", target=sink, context=event.context)]
+
+    kind = (v // 5) % 3
+    if kind == 0:
+        tgt = Server("tgt", concurrency=p.count(0, 2), service_time=ConstantLatency(p.lat(1)), queue_capacity=p.count(1, 4), downstream=sink)
+    elif kind == 1:
+        tgt = ThreadPool("tgt", num_workers=p.count(0, 2), queue_capacity=p.count(1, 4), default_processing_time=p.lat(1))
+    else:
+        tgt = AsyncServer("tgt", max_connections=p.count(0, 2, lo=2), cpu_work_distribution=ConstantLatency(p.lat(1)), io_handler=io)
+        box["a"] = tgt
+    entry, front = front_stage(FRONT_STAGES[v % 5], p, tgt)
+    arr = p.arrivals(8)
+    sim = make_sim([*front, tgt, sink], p.end())
+    _burst(sim, entry, arr)
+    return Scenario(sim, {"tgt": tgt, "sink": sink}, "servers", True, len(arr), notes=f"front={FRONT_STAGES[v % 5]} kind={kind}")
